@@ -15,7 +15,7 @@ from ..runner import R, drive, ROOT
 from .. import common
 
 ID = "C19"
-RULE = ("Hypothesis draws (request from a pool of 20 derivation / "
+RULE = ("Hypothesis draws (request from a pool of 22 derivation / "
         "transformation requests, history of 0-6 other requests and explicit "
         "/ generic / spin index requests, PYTHONHASHSEED, optional "
         "tensor-name configuration). Every tuple runs in a FRESH interpreter "
@@ -36,7 +36,8 @@ ASSUMPTIONS = ["fresh processes; the baseline (empty history, hash seed 0, "
                "default names) is computed once per request and shard"]
 
 REQUESTS = ["energy2", "re_energy2", "mp_amp_2_ph", "mp_amp_1_pphh",
-            "expec_2", "psi_2", "norm_2", "precursor_1", "overlap_pre_2",
+            "expec_2", "psi_2", "norm_2", "norm_4", "expand_density",
+            "precursor_1", "overlap_pre_2",
             "m_ph_ph_1", "m_ph_ph_2", "m_ip_2", "mvp_1", "tm_1", "tm_2",
             "expec_block_1", "t2_2", "t1_2_once", "p0_2_oo", "reduce_t1_2"]
 CHEAP_HISTORY = ["energy2", "mp_amp_2_ph", "psi_2", "norm_2", "precursor_1",
@@ -178,6 +179,9 @@ def run_case(case):
                    f"{r.sample}:\n  baseline {str(base.get(key))[:400]}\n  "
                    f"got      {str(got.get(key))[:400]}")
             break
+    if got.get("malformed_terms"):
+        r.fail("norm_factor_index_reuse", f"{req}: terms in which a summed "
+               f"index does not occur exactly twice: {got['malformed_terms']}")
     if got.get("shared_contracted"):
         r.fail("shared_contracted_indices", f"{req} requested twice shares "
                f"the indices {got['shared_contracted']}")
